@@ -168,7 +168,7 @@ pub fn vop(oob: bool, traversal: bool) -> BoxedStrategy<VOp> {
 }
 
 fn stage_of(kind: StageKind) -> BoxedStrategy<Stage> {
-    let lim = || 0u8..=10;
+    let lim = || prop_oneof![5 => 0u8..=10, 1 => 11u8..=250];
     match kind {
         StageKind::Head => lim().prop_map(Stage::Head).boxed(),
         StageKind::Tail => lim().prop_map(Stage::Tail).boxed(),
@@ -222,8 +222,10 @@ fn top(cfg: &GenCfg) -> BoxedStrategy<Op> {
     }
     if cfg.w_txn > 0 {
         let t = prop_oneof![
-            8 => vop(cfg.oob, cfg.traversal).prop_map(TOp::V),
-            1 => Just(TOp::Rollback),
+            16 => vop(cfg.oob, cfg.traversal).prop_map(TOp::V),
+            2 => Just(TOp::Rollback),
+            1 => any::<u8>().prop_map(TOp::DropSub),
+            1 => any::<u8>().prop_map(TOp::Poll),
         ];
         alts.push((
             cfg.w_txn,
